@@ -515,11 +515,15 @@ def one(prog, rep, cls, comb):
         sx, sy = inl[nx][0][1], inl[ny][0][1]
         ifx = [p_ for p_, w_ in cfg.enclosing(sx) if isinstance(p_, ast.If) and w_ == "body" and any(n is p_ for n in ast.walk(F))]
         ify = [p_ for p_, w_ in cfg.enclosing(sy) if isinstance(p_, ast.If) and w_ == "body" and any(n is p_ for n in ast.walk(F))]
-        if len(ifx) == 1 and ifx == ify and not ifx[0].orelse:
-            tf = scF.term(ifx[0].test, ifx[0])
+        if ifx and ifx == ify and not any(i_.orelse for i_ in ifx):
+            # the guard: one test 'a and b', or the same two tests nested
+            from vstat.guards import literals as _lits
+            lits = []
+            for i_ in ifx:
+                lits += _lits(scF.term(i_.test, i_), True)
+            tf = ("and", tuple(lits))
             xs = ("col", xy[0][1], ("const", 0))
             ys = ("col", xy[0][1], ("const", 1))
-            lits = tf[1] if tf[0] == "and" else ()
 
             def lim_ok(l, comp, col):
                 o_ = ordered(l)
